@@ -170,6 +170,10 @@ def run_check(pid: str, tier: str, seed: int, jobs: int) -> int:
     finally:
         shutil.rmtree(workdir, ignore_errors=True)
 
+    if os.environ.get("VERIF_DEBUG"):
+        slow = sorted(((r.get("wall_s", 0), json.dumps(sp)[:120]) for r, sp in zip(results, specs)), reverse=True)[:6]
+        for w, sp in slow:
+            print("debug: shard %.1fs %s" % (w, sp))
     wit_results = results[:nwit]
     agg = aggregate(results[nwit:])
 
